@@ -216,7 +216,7 @@ def run(tier, seed):
     for g in common.gen_programs(30 if quick else 300, seed, vars=3, lists=0.5, externals=0.5, seq_inline=1):
         pool.append(g["src"])
     pool += EXTRA_POOL * 3
-    n = 1500 if quick else 20000
+    n = 1500 if quick else 60000
     inputs = []
     for i in range(n):
         src = rnd.choice(pool)
@@ -275,7 +275,7 @@ def run(tier, seed):
             o2 = second.get(i, {})
             if o2.get("json") != o["json"]:
                 nondet.append(i)
-            if o.get("loads") and (ndocs < (150 if quick else 2000)):
+            if o.get("loads") and (ndocs < (150 if quick else 4000)):
                 try:
                     nodes, refs = parse_doc(o["json"])
                 except (ValueError, KeyError, TypeError, IndexError):
